@@ -59,7 +59,7 @@ func init() {
 func runC14(c *core.Ctx) {
 	ks := []int{1, 2, 3, 5, 8}
 	if !c.Quick() {
-		ks = []int{1, 2, 3, 4, 5, 7, 8, 12, 17}
+		ks = []int{1, 2, 3, 4, 5, 6, 7, 8, 9, 12, 16, 17, 33, 64}
 	}
 	n := 0
 	for _, t := range dyn.Types[:dyn.NBuiltin] {
